@@ -1146,6 +1146,51 @@ pub fn f6_rec_programs() -> Vec<Program> {
         Stmt::Res(rel(var("@self"), vec![xfer(Method::Get, E::Content(vec![], None))])),
     ]));
     programs.push(single(vec![let_("@c", content(var("@c"))), get(var("@c"))]));
+    // modules laid out alike (corresponding declarations sit at the same place of their trees):
+    // a recursive declaration beside an imported one of the same name and shape that is not
+    // recursive, and a wrapper function around an imported function of the same shape
+    programs.push(Program {
+        modules: vec![
+            Module {
+                name: "main.oal".into(),
+                stmts: vec![
+                    let_("c", obj(vec![prop("x", qvar("m", "b"))])),
+                    let_("b", obj(vec![E::Mark(Box::new(prop("n", var("b"))), false)])),
+                    Stmt::Use("m.oal".into(), Some("m".into())),
+                    get(content(obj(vec![prop("c", var("c")), prop("b", var("b"))]))),
+                ],
+            },
+            Module {
+                name: "m.oal".into(),
+                stmts: vec![
+                    let_("c", obj(vec![prop("x", qvar("e", "b"))])),
+                    let_("b", obj(vec![E::Mark(Box::new(prop("n", var("c"))), false)])),
+                    Stmt::Use("e.oal".into(), Some("e".into())),
+                ],
+            },
+            Module { name: "e.oal".into(), stmts: vec![let_("b", obj(vec![prop("v", E::Prim(Prim::Int))]))] },
+        ],
+    });
+    programs.push(Program {
+        modules: vec![
+            Module {
+                name: "main.oal".into(),
+                stmts: vec![
+                    fun("f", &["x"], obj(vec![prop("v", E::Paren(Box::new(E::App(Some("m".into()), "f".into(), vec![var("x")]))))])),
+                    Stmt::Use("m.oal".into(), Some("m".into())),
+                    get(content(app("f", vec![E::Prim(Prim::Int)]))),
+                ],
+            },
+            Module {
+                name: "m.oal".into(),
+                stmts: vec![
+                    fun("f", &["x"], obj(vec![prop("v", E::Paren(Box::new(E::App(Some("e".into()), "f".into(), vec![var("x")]))))])),
+                    Stmt::Use("e.oal".into(), Some("e".into())),
+                ],
+            },
+            Module { name: "e.oal".into(), stmts: vec![fun("f", &["x"], obj(vec![prop("w", var("x"))]))] },
+        ],
+    });
     programs
 }
 
